@@ -193,6 +193,7 @@ func (db *RockDB) HMset(ts int64, key []byte, args ...common.KVRecord) error {
 	if len(args) == 0 {
 		return nil
 	}
+	args = dedupKVRecords(args)
 
 	// get old header for this hash key
 	keyInfo, err := db.prepareHashKeyForWrite(ts, key, nil)
@@ -406,6 +407,7 @@ func (db *RockDB) HDel(ts int64, key []byte, args ...[]byte) (int64, error) {
 	if len(args) == 0 {
 		return 0, nil
 	}
+	args = dedupMembers(args)
 	keyInfo, err := db.GetCollVersionKey(ts, HashType, key, false)
 	if err != nil {
 		return 0, err
